@@ -35,6 +35,7 @@ import PV.Common.Proto
 import PV.C01.Model
 import PV.C01.Bitmap
 import PV.C01.Spec
+import PV.C01.Words
 open PV.Proto PV.C01
 
 def parseItem (s : String) : Option (Nat × Nat) :=
@@ -96,18 +97,71 @@ def parseEntry (s : String) : Option (Nat × Option Container) :=
     if c = "nil" then pure (key, none) else do let cc ← parseContainer c; pure (key, some cc)
   | _ => none
 
+/-! Word level of the bitmap encoding (Words.lean): where a kernel line reaches `bitmapCountRange`,
+`bitmapSetRange`, `bitmapZeroRange`, `bitmapXorRange` or `flipBitmap`, the driver runs the word-level
+model (1024 words, Go mask/shift/popcount arithmetic) and prints its abstraction. -/
+
+def countRangeW (c : Container) (s e : Nat) : Nat :=
+  match c with
+  | .bitmap _ bits => wCountRange (wordsOf bits) s e
+  | c => c.countRange s e
+
+def ofWords (r : Nat × List Nat) : Container := .bitmap r.1 (absW r.2)
+
+def intersectW (a b : Container) : Option Container :=
+  if a.n = 65536 ∨ b.n = 65536 ∨ a.n = 0 ∨ b.n = 0 then intersect a b
+  else match a, b with
+    | .bitmap _ ba, .bitmap _ bb => some (ofWords (wAndN (wordsOf ba) (wordsOf bb)))
+    | a, b => intersect a b
+
+def unionW (a b : Container) : Container :=
+  if a.n = 65536 ∨ b.n = 65536 then union a b
+  else match a, b with
+    | .bitmap _ ba, .bitmap _ bb => ofWords (wOrN (wordsOf ba) (wordsOf bb))
+    | .bitmap na ba, .run _ rb => ofWords (wUnionRunsN na (wordsOf ba) rb)
+    | .run _ ra, .bitmap nb bb => ofWords (wUnionRunsN nb (wordsOf bb) ra)
+    | a, b => union a b
+
+def differenceW (a b : Container) : Option Container :=
+  if a.n = 0 ∨ b.n = 65536 ∨ b.n = 0 then difference a b
+  else match a, b with
+    | .bitmap na ba, .run _ rb => some (ofWords (wDiffRunsN na (wordsOf ba) rb))
+    | .bitmap _ ba, .bitmap _ bb =>
+      let r := wAndNotN (wordsOf ba) (wordsOf bb)
+      some (if r.1 < arrayMaxSize then bitmapToArray r.1 (absW r.2) else ofWords r)
+    | a, b => difference a b
+
+def xorW (a b : Container) : Option Container :=
+  if a.n = 0 ∨ b.n = 0 then xor a b
+  else match a, b with
+    | .bitmap na ba, .run _ rb => some (ofWords (wXorRunsN na (wordsOf ba) rb))
+    | .run _ ra, .bitmap nb bb => some (ofWords (wXorRunsN nb (wordsOf bb) ra))
+    | .bitmap _ ba, .bitmap _ bb =>
+      let r := wXorN (wordsOf ba) (wordsOf bb)
+      some (if r.1 < arrayMaxSize then bitmapToArray r.1 (absW r.2) else ofWords r)
+    | a, b => xor a b
+
+def flipW (c : Container) : Container := ofWords (wFlipN (wordsOf c.values))
+
+def intersectionCountW (a b : Container) : Nat :=
+  if a.n = 65536 ∨ b.n = 65536 ∨ a.n = 0 ∨ b.n = 0 then intersectionCount a b
+  else match a, b with
+    | .bitmap _ ba, .run _ rb => wIntersectionCountRuns (wordsOf ba) rb
+    | .run _ ra, .bitmap _ bb => wIntersectionCountRuns (wordsOf bb) ra
+    | a, b => intersectionCount a b
+
 def kernel (ws : List String) : Ans :=
   let bad := ans "bad-op"
   match ws with
   | ["cr", c, s, e] =>
     match parseContainer c, s.toNat?, e.toNat? with
     | some c, some s, some e =>
-      ans2 (toString (c.countRange s e)) (toString (Spec.cntList c.values s e)) "k-countRange"
+      ans2 (toString (countRangeW c s e)) (toString (Spec.cntList c.values s e)) "k-countRange"
     | _, _, _ => bad
   | ["ic", a, b] =>
     match parseContainer a, parseContainer b with
     | some a, some b =>
-      ans2 (toString (intersectionCount a b)) (toString (Spec.inter a.values b.values).length) "k-intersectionCount"
+      ans2 (toString (intersectionCountW a b)) (toString (Spec.inter a.values b.values).length) "k-intersectionCount"
     | _, _ => bad
   | ["conv", name, c] =>
     match parseContainer c with
@@ -132,10 +186,10 @@ def kernel (ws : List String) : Ans :=
     match parseContainer a, parseContainer b with
     | some a, some b =>
       match op with
-      | "and" => ans2 (showC (intersect a b)) (showSet (Spec.inter a.values b.values)) "k-intersect"
-      | "or" => ans2 (showC (some (union a b))) (showSet (Spec.union a.values b.values)) "k-union"
-      | "andnot" => ans2 (showC (difference a b)) (showSet (Spec.diff a.values b.values)) "k-difference"
-      | "xor" => ans2 (showC (xor a b)) (showSet (Spec.xor a.values b.values)) "k-xor"
+      | "and" => ans2 (showC (intersectW a b)) (showSet (Spec.inter a.values b.values)) "k-intersect"
+      | "or" => ans2 (showC (some (unionW a b))) (showSet (Spec.union a.values b.values)) "k-union"
+      | "andnot" => ans2 (showC (differenceW a b)) (showSet (Spec.diff a.values b.values)) "k-difference"
+      | "xor" => ans2 (showC (xorW a b)) (showSet (Spec.xor a.values b.values)) "k-xor"
       | _ => bad
     | _, _ => bad
   | [op, c] =>
@@ -146,7 +200,7 @@ def kernel (ws : List String) : Ans :=
         let r := shift c
         let sv := Spec.shift 65536 c.values
         ans2 s!"{showC r.1} carry={showBool r.2}" s!"{showSet sv} carry={showBool (c.values.contains 65535)}" "k-shift"
-      | "flip" => ans2 (showC (some (flip c))) (showSet (Spec.compl16 c.values)) "k-flip"
+      | "flip" => ans2 (showC (some (flipW c))) (showSet (Spec.compl16 c.values)) "k-flip"
       | "max" => ans2 (toString (maxO (some c))) (toString (Spec.max c.values)) "k-max"
       | "runs" => ans (toString c.countRuns)
       | "opt" => ans2 (showC c.optimize) (showSet c.values) "k-optimize"
